@@ -127,6 +127,19 @@ static Trap gen_trap(int w, int h, const Grid &g, bool spanning) {
   }
   line(t.l1, t.l2, xl1, xl2);
   line(t.r1, t.r2, xr1, xr2);
+  if (coin(6)) {
+    // lines given by two points tens of thousands of pixels above the image, and a bottom far below it: the lines must be
+    // extended over more than 32768 pixels, yet pass through the image with a gentle slope
+    t.bottom = t.top + R(4000, 30000) * 65536 + R(0, 65535);
+    for (int k = 0; k < 2; k++) {
+      Pt &p1 = k ? t.r1 : t.l1, &p2 = k ? t.r2 : t.l2;
+      int64_t x_at_top = k ? std::max(xl1, xr1) : std::min(xl1, xr1);
+      int64_t ya = t.top - R(8000, 30000) * 65536, yb = ya + R(100, 3000) * 65536;
+      int64_t slope = R(-1500, 1500);  // 1/65536 pixels per pixel
+      p1 = Pt{x_at_top - slope * ((t.top - ya) >> 16), ya};
+      p2 = Pt{p1.x + slope * ((yb - ya) >> 16), yb};
+    }
+  }
   return t;
 }
 static TCase gen_case() {
@@ -161,7 +174,7 @@ static TCase gen_case() {
   c.p3 = R(-6, 6);
   if (c.law == L_COMPOSITE) {
     c.p1 = R(0, 13);        // operator: CLEAR..ADD plus SATURATE
-    c.p2 = R(0, 5);         // destination format selector
+    c.p2 = R(0, 6);         // destination format selector
     c.p3 = R(0, 3);         // source kind
   }
   return c;
@@ -512,15 +525,11 @@ static Verdict run_case(const TCase &c) {
   case L_COMPOSITE: {
     // composite_trapezoids(op, src, dst, fmt, ...) == rasterise into a zeroed mask + composite32 with that mask
     int op = (int)c.p1;
-    static const pixman_format_code_t DF[6] = {PIXMAN_a8r8g8b8, PIXMAN_x8r8g8b8, PIXMAN_a8, PIXMAN_r5g6b5, PIXMAN_a4, PIXMAN_a1};
-    pixman_format_code_t df = DF[c.p2 % 6];
-    // keep the shapes' extents small: the library allocates a temporary of the extents
-    for (auto &t : c.traps)
-      for (int64_t xx : {t.l1.x, t.l2.x, t.r1.x, t.r2.x, t.top, t.bottom})
-        if (xx < -300 * 65536 || xx > 300 * 65536) {
-          v.label("composite_skipped_large_extents");
-          return v;
-        }
+    // (x4a4 is an alpha-only format of the same size as a8 with fewer alpha bits: the direct-rasterisation shortcut must
+    // not mistake it for the mask format)
+    static const pixman_format_code_t DF[7] = {PIXMAN_a8r8g8b8, PIXMAN_x8r8g8b8, PIXMAN_a8, PIXMAN_r5g6b5, PIXMAN_a4, PIXMAN_a1, PIXMAN_x4a4};
+    pixman_format_code_t df = DF[((c.p2 % 7) + 7) % 7];
+    // (the library's temporary mask never exceeds the destination: shapes may extend far beyond it)
     Bits db;
     db.fmt = fmt_index(df);
     db.w = c.w;
